@@ -522,6 +522,8 @@ func runC04(c *fw.Ctx) {
 		c.Case(func(k *fw.K) { c04Scaled(k) })
 		c.Case(func(k *fw.K) { c04MixedMagnitudes(k) })
 		c.Case(func(k *fw.K) { c04Structured(k) })
+		c.Case(func(k *fw.K) { c04Cancelling(k, false) })
+		c.Case(func(k *fw.K) { c04Cancelling(k, true) })
 	}
 
 	// tensors that took part in REJECTED calls are used again
@@ -781,5 +783,111 @@ func c04Scaled(k *fw.K) {
 	}
 	if msg := forwardCase(in, []*ref.T{as, bs}, true); msg != "" {
 		k.Failf("MatMul %v x %v with operands scaled by 2^%d and 2^%d: %s", sa, sb, e, -e, msg)
+	}
+}
+
+// c04Cancelling: contractions whose terms are far larger than their sum, and contractions over non-finite elements.
+// Cancelling: two inner positions carry x*K and -x*(K-c) with K = 2^40..2^50 and small integers x, c, every other product
+// is a small integer: all partial sums are integers below 2^53 in any order of summation, so the defined value (a small
+// integer, possibly 0) is exact although it is 1e-12..1e-15 of the sum of the absolute terms.
+// Non-finite: an exact 0 of A meets an infinity or a NaN of B (0*Inf = NaN in IEEE arithmetic, x*Inf = +-Inf, Inf-Inf = NaN).
+func c04Cancelling(k *fw.K, nonFinite bool) {
+	r := k.Rng
+	dst := RandShape(r, 0, 2, 2)
+	prs := batchPairs(dst)
+	pr := prs[r.Intn(len(prs))]
+	m, n, kk := 1+r.Intn(3), 2+r.Intn(4), 1+r.Intn(3)
+	dot := r.Intn(3) == 0
+	sa := append(ref.CopyInts(pr[0]), m, n)
+	sb := append(ref.CopyInts(pr[1]), n, kk)
+	if dot {
+		sb = append(ref.CopyInts(pr[1]), m, n)
+	}
+	a, b := ref.Zeros(sa), ref.Zeros(sb)
+	small := func() float64 { return float64(1+r.Intn(7)) * []float64{1, -1}[r.Intn(2)] }
+	for i := range a.Data {
+		a.Data[i] = small()
+	}
+	for i := range b.Data {
+		b.Data[i] = small()
+	}
+	// inner position of element i of B
+	innerB := func(i int) int {
+		if dot {
+			return i % n
+		}
+		return (i / kk) % n
+	}
+	p1 := r.Intn(n)
+	p2 := (p1 + 1 + r.Intn(n-1)) % n
+	tag := ""
+	if !nonFinite {
+		K := math.Ldexp(1, 40+r.Intn(11))
+		for i := range a.Data {
+			if i%n == p2 {
+				a.Data[i] = a.Data[i-p2+p1] // the two positions carry the same factor of A
+			}
+		}
+		for i := range b.Data {
+			switch innerB(i) {
+			case p1:
+				b.Data[i] = K
+			case p2:
+				b.Data[i] = -(K - float64(r.Intn(4))) // c = 0: the pair cancels completely
+			}
+		}
+		tag = fmt.Sprintf("terms of size 2^%d that cancel to a small integer", int(math.Log2(K)))
+		k.Count("cancelling_contraction_cases", 1)
+	} else {
+		special := []float64{math.Inf(1), math.Inf(-1), math.NaN()}[r.Intn(3)]
+		for i := range a.Data {
+			if i%n == p1 && r.Intn(2) == 0 {
+				a.Data[i] = 0
+			}
+		}
+		planted := false
+		for i := range b.Data {
+			if innerB(i) == p1 && (r.Intn(2) == 0 || !planted) {
+				b.Data[i] = special
+				planted = true
+			}
+		}
+		if r.Intn(3) == 0 { // and the other way round: the special value in A, zeros in B
+			a, b = ref.Zeros(sa), ref.Zeros(sb)
+			for i := range a.Data {
+				a.Data[i] = small()
+				if i%n == p1 {
+					a.Data[i] = special
+				}
+			}
+			for i := range b.Data {
+				b.Data[i] = small()
+				if innerB(i) == p1 && r.Intn(2) == 0 {
+					b.Data[i] = 0
+				}
+			}
+		}
+		tag = fmt.Sprintf("exact zeros of one operand meet %v of the other", special)
+		k.Count("non_finite_contraction_cases", 1)
+	}
+	in := ref.Instr{Op: "matmul"}
+	if dot {
+		in.Op = "dot"
+	}
+	want, err := ref.Apply(in, []*ref.T{a, b})
+	if err != nil {
+		k.Failf("harness: %v", err)
+		return
+	}
+	k.Case = fcase{In: in, Ops: []*ref.T{a, b}, Tag: tag}
+	k.Key("%s-cancel/%v/%s/%s", in.Op, nonFinite, shapeKey(sa), shapeKey(sb))
+	ra, rb := rt.MustLeaf(a, false), rt.MustLeaf(b, false)
+	y, err, p := exec(in, []tensor.Tensor{ra, rb})
+	if p != nil || err != nil || y == nil {
+		k.Failf("%s %v x %v (%s): panic=%v err=%v", in.Op, sa, sb, tag, p, err)
+		return
+	}
+	if e := rt.Compare(y, want, 0, 0, nil, 0); e != nil {
+		k.Failf("%s %v x %v (%s; every finite product and partial sum is an integer below 2^53): %v", in.Op, sa, sb, tag, e)
 	}
 }
